@@ -71,10 +71,10 @@ func init() {
 			return nil
 		},
 		Phases: []fw.Phase{
-			{Name: "trie-H1-bytes", Space: "H1^<=5 (quick) / H1^<=5 + H1core^6 (thorough), public IsXSS (all 5 contexts)", Share: 3,
-				Run: func(w *fw.W) { w.Trie(alpha.H1, 0, 5) }, Eval: evalC02Public},
-			{Name: "trie-H1core-deep", Space: "H1core^6..7", Share: 3, ThoroughOnly: true,
-				Run: func(w *fw.W) { w.Trie(alpha.H1core, 6, 7) }, Eval: evalC02Public},
+			{Name: "trie-H1-bytes", Space: "H1^<=4 (quick) / <=5 (thorough), public IsXSS (all 5 contexts)", Share: 3,
+				Run: func(w *fw.W) { w.Trie(alpha.H1, 0, w.Pick(4, 5)) }, Eval: evalC02Public},
+			{Name: "trie-H1core-deep", Space: "H1core^5..6 (quick) / ^5..7 (thorough)", Share: 3,
+				Run: func(w *fw.W) { w.Trie(alpha.H1core, 5, w.Pick(6, 7)) }, Eval: evalC02Public},
 			{Name: "trie-H2-fragments", Space: "H2^<=4 (quick) / <=5 (thorough), IsXSS + token trace in 5 contexts", Share: 4,
 				Run: func(w *fw.W) { w.Trie(alpha.H2, 1, w.Pick(4, 5)) }, Eval: evalC02Traced},
 			{Name: "trie-url-values", Space: "`<a href=\"` + every string over {& # x X ; 0 9 a F g j : space NUL 0x80 0xff}^<=5 (quick) / <=6 (thorough): character references inside a URL-typed value", Share: 2,
